@@ -1,4 +1,5 @@
 import EpdVerif.AuditCmd
 import EpdVerif.Props.C05
+import EpdVerif.Props.C05Big
 import EpdVerif.Props.Panels
 #audit_namespace EpdVerif.Props.C05
